@@ -519,7 +519,7 @@ class Worker:
         self._tasks.pop(task.return_address, None)
 
         # Cancel any open tasks
-        for mailbox_id in self._active_task.owned_mailboxes:
+        for mailbox_id in list(self._active_task.owned_mailboxes):
             # If task is complete, simply discard result
             if mailbox_id in self._mailboxes:
                 if self._mailboxes[mailbox_id].ready:
